@@ -41,7 +41,8 @@ def strategy(draw):
     if mode == "tsv" and len(table["header"]) == 1:
         for row in table["rows"]:
             row[0] = row[0] or "n/a"
-    return {"spec": spec, "table": table, "mode": mode}
+    edit = (draw(st.integers(0, 50)), draw(st.integers(0, 5)), draw(st.integers(0, 5))) if draw(st.booleans()) else None
+    return {"spec": spec, "table": table, "mode": mode, "edit": edit}
 
 
 def build(case):
@@ -116,6 +117,31 @@ def oracle(case):
         if gen_tab.canon(tree) != gen_tab.canon(exp):
             why = "ref-literal-left" if "{" in got else ("absent-ref" if absent_ref else "other")
             out.bad(f"assembled-annotation-differs:{why}", f"got {got!r} expected tree {exp}; {ctx}")
+    # the caller edits a cell: the next assembly must describe the edited table
+    edit = case.get("edit")
+    hbear = [h for h in t["header"] if h in spec["columns"] and spec["columns"][h]["kind"] == "categorical"]
+    if edit is not None and rows and hbear and not out.violations:
+        r = edit[0] % len(rows)
+        h = hbear[edit[1] % len(hbear)]
+        keys = sorted(spec["columns"][h]["entries"]) + ["n/a"]
+        newv = keys[edit[2] % len(keys)]
+        if newv != rows[r][t["header"].index(h)]:
+            why0 = same_frame(snap, tab.dataframe)
+            tab.dataframe.iloc[r, list(tab.dataframe.columns).index(h)] = newv
+            rows2 = [list(x) for x in rows]
+            rows2[r][t["header"].index(h)] = newv
+            exp2 = gen_tab.reference_assemble(spec, t["header"], rows2)
+            got2 = [str(x) for x in tab.series_a]
+            for i, (g, e) in enumerate(zip(got2, exp2)):
+                tree = gen_tab.parsed_tree(g) or []
+                if gen_tab.canon(tree) != gen_tab.canon(e):
+                    out.bad("assembly-stale-after-table-edit", f"row {i}: got {g!r} expected tree {e} after setting "
+                                                               f"{h}[{r}]={newv!r}")
+                    break
+            out.classes += ("edited-between-calls",)
+            if why0:
+                out.bad(f"table-changed-by-assembly:{why0}", "")
+            return out
     why = same_frame(snap, tab.dataframe)
     if why:
         out.bad(f"table-changed-by-assembly:{why}", f"dtypes before {snap[1]} after "
